@@ -94,7 +94,31 @@ func (fc *fileCase) boundaries() []int64 {
 
 // genHandFile hand-assembles a well-formed file DAG in mutable form (see genHandFileDAG).
 func genHandFile(t *rapid.T, allowOldStyle bool) (root *mnode, data []byte, writer, desc string) {
-	n := rapid.IntRange(1, 7).Draw(t, "nchunks")
+	return genHandFileOpt(t, handOpts{OldStyle: allowOldStyle})
+}
+
+type handOpts struct {
+	OldStyle bool // allow interior nodes without BlockSizes / FileSize
+	NoEmpty  bool // no zero-length chunks (checks about which blocks a byte range needs)
+	MinChunk int
+}
+
+func genHandFileOpt(t *rapid.T, o handOpts) (root *mnode, data []byte, writer, desc string) {
+	allowOldStyle := o.OldStyle
+	minChunks := 1
+	if o.MinChunk > 0 {
+		minChunks = o.MinChunk
+	}
+	n := rapid.IntRange(minChunks, 7).Draw(t, "nchunks")
+	// UnixFS type Raw (0) is a file type too: readers (this one and the reference one) treat File and Raw nodes alike,
+	// with or without links. which: 0 = all File, 1 = root Raw, 2 = interior nodes Raw, 3 = dag-pb leaves Raw, 4 = all Raw
+	rawTyped := rapid.SampledFrom([]int{0, 0, 0, 1, 2, 3, 4}).Draw(t, "rawTyped")
+	typeOf := func(role int) uint64 { // role 1 root, 2 interior, 3 leaf
+		if rawTyped == 4 || rawTyped == role {
+			return 0
+		}
+		return 2
+	}
 	pbLeaves := rapid.Bool().Draw(t, "pbLeaves")
 	// old-style files: dag-pb leaves and no BlockSizes in the interior nodes (the reader then has to open a child to learn its size)
 	// (malformed per the UnixFS spec but tolerated by the reader: only generated where correctness of the bytes is the subject,
@@ -105,7 +129,7 @@ func genHandFile(t *rapid.T, allowOldStyle bool) (root *mnode, data []byte, writ
 	pattern := ""
 	for i := 0; i < n; i++ {
 		var c []byte
-		if rapid.IntRange(0, 2).Draw(t, "empty") == 0 {
+		if !o.NoEmpty && rapid.IntRange(0, 2).Draw(t, "empty") == 0 {
 			pattern += "0"
 		} else {
 			c = lcgBytes(rapid.IntRange(1, 5).Draw(t, "clen"), byte(i+1), 0)
@@ -116,12 +140,12 @@ func genHandFile(t *rapid.T, allowOldStyle bool) (root *mnode, data []byte, writ
 	}
 	leaf := func(c []byte) (*mnode, uint64) {
 		if pbLeaves {
-			return &mnode{HasData: true, UFS: &ufsFields{Type: 2, HasData: true, Data: c, FileSize: u64p(uint64(len(c)))}}, uint64(len(c))
+			return &mnode{HasData: true, UFS: &ufsFields{Type: typeOf(3), HasData: true, Data: c, FileSize: u64p(uint64(len(c)))}}, uint64(len(c))
 		}
 		return &mnode{IsRaw: true, Raw: c}, uint64(len(c))
 	}
-	interior := func(kids []*mnode, sizes []uint64) (*mnode, uint64) {
-		m := &mnode{HasData: true, UFS: &ufsFields{Type: 2}}
+	interior := func(kids []*mnode, sizes []uint64, role int) (*mnode, uint64) {
+		m := &mnode{HasData: true, UFS: &ufsFields{Type: typeOf(role)}}
 		tot := uint64(0)
 		for i, k := range kids {
 			// Tsize only has to be right for raw leaves (the reader trusts it); cumulative sizes are not the subject here
@@ -146,13 +170,13 @@ func genHandFile(t *rapid.T, allowOldStyle bool) (root *mnode, data []byte, writ
 	if n >= 3 && rapid.Bool().Draw(t, "threeLevels") {
 		levels = 3
 		cut := rapid.IntRange(1, n-1).Draw(t, "cut")
-		a, as := interior(kids[:cut], sizes[:cut])
-		b, bs := interior(kids[cut:], sizes[cut:])
+		a, as := interior(kids[:cut], sizes[:cut], 2)
+		b, bs := interior(kids[cut:], sizes[cut:], 2)
 		kids, sizes = []*mnode{a, b}, []uint64{as, bs}
 	}
-	root, _ = interior(kids, sizes)
-	writer = fmt.Sprintf("hand-%s-pb=%v-l%d-bs=%v-fs=%v", pattern, pbLeaves, levels, !noBlockSizes, !noFileSize)
-	desc = fmt.Sprintf("hand-made file chunks=%s (0 = empty) pbLeaves=%v levels=%d blocksizes=%v filesize=%v len=%d", pattern, pbLeaves, levels, !noBlockSizes, !noFileSize, len(data))
+	root, _ = interior(kids, sizes, 1)
+	writer = fmt.Sprintf("hand-%s-pb=%v-l%d-bs=%v-fs=%v-raw=%d", pattern, pbLeaves, levels, !noBlockSizes, !noFileSize, rawTyped)
+	desc = fmt.Sprintf("hand-made file chunks=%s (0 = empty) pbLeaves=%v levels=%d blocksizes=%v filesize=%v rawTyped=%d (0 none, 1 root, 2 interior, 3 leaves, 4 all) len=%d", pattern, pbLeaves, levels, !noBlockSizes, !noFileSize, rawTyped, len(data))
 	return
 }
 
@@ -161,7 +185,11 @@ func genHandFile(t *rapid.T, allowOldStyle bool) (root *mnode, data []byte, writ
 // blocks or dag-pb File nodes; with three levels the chunks are grouped under intermediate nodes; old-style variants omit
 // BlockSizes (and FileSize).
 func genHandFileDAG(t *rapid.T, allowOldStyle bool) *fileCase {
-	root, data, writer, desc := genHandFile(t, allowOldStyle)
+	return genHandFileDAGOpt(t, handOpts{OldStyle: allowOldStyle})
+}
+
+func genHandFileDAGOpt(t *rapid.T, o handOpts) *fileCase {
+	root, data, writer, desc := genHandFileOpt(t, o)
 	st := NewStore()
 	c, err := root.store(st, st.LinkSystem())
 	if err != nil {
